@@ -21,19 +21,28 @@ Section Restrict.
 
   Hypothesis Hq : d_quote d1 = d_quote d2.
   Hypothesis Ha : d_apply d1 = d_apply d2.
-  Hypothesis Hs : d_softfork d1 = d_softfork d2.
   Hypothesis Hgc : forall o, d_gc d1 o = d_gc d2 o.
-  Hypothesis Hext : forall x, d_ext d1 x = d_ext d2 x.
-  Hypothesis Hncm : f_new_cost_model (d_flags d1) = f_new_cost_model (d_flags d2).
-  Hypothesis Huint : forall size t,
-    rr (uint_atom size (f_canonical_ints (d_flags d1)) t) (uint_atom size (f_canonical_ints (d_flags d2)) t).
-  (* a guard argument that the first dialect rejects and the second parses must be fatal in the
-     first dialect (this is what finding F8 violates) *)
-  Hypothesis Hcanon : f_canonical_ints (d_flags d1) = f_canonical_ints (d_flags d2) \/ d_allow_unknown d1 = false.
-  Hypothesis Hallow : d_allow_unknown d1 = d_allow_unknown d2 \/ (d_allow_unknown d2 = true /\ forall e, E e).
-  Hypothesis Hlsf : f_limit_softfork (d_flags d1) = f_limit_softfork (d_flags d2) \/
-                    (f_limit_softfork (d_flags d2) = false /\ E SoftforkStackDepth).
   Hypothesis Hop : forall o a m ext, rr (d_op d1 o a m ext) (d_op d2 o a m ext).
+
+  (* softfork guards: either the first dialect never recognises the softfork keyword and fails
+     (with an error of class E) on every operator the second one treats as softfork, or both
+     agree on everything guard entry reads *)
+  Definition guards_agree : Prop :=
+    d_softfork d1 = d_softfork d2 /\
+    (forall x, d_ext d1 x = d_ext d2 x) /\
+    f_new_cost_model (d_flags d1) = f_new_cost_model (d_flags d2) /\
+    (forall size t, rr (uint_atom size (f_canonical_ints (d_flags d1)) t)
+                       (uint_atom size (f_canonical_ints (d_flags d2)) t)) /\
+    (* a guard argument that the first dialect rejects and the second parses must be fatal in the
+       first dialect (this is what finding F8 violates) *)
+    (f_canonical_ints (d_flags d1) = f_canonical_ints (d_flags d2) \/ d_allow_unknown d1 = false) /\
+    (d_allow_unknown d1 = d_allow_unknown d2 \/ (d_allow_unknown d2 = true /\ forall e, E e)) /\
+    (f_limit_softfork (d_flags d1) = f_limit_softfork (d_flags d2) \/
+     (f_limit_softfork (d_flags d2) = false /\ E SoftforkStackDepth)).
+  Definition guards_barred : Prop :=
+    (forall opr, is_kw opr (d_softfork d1) = false) /\
+    (forall opr a m ext, is_kw opr (d_softfork d2) = true -> exists e, d_op d1 opr a m ext = Err e /\ E e).
+  Hypothesis Hguards : guards_barred \/ guards_agree.
 
   Lemma rr_refl {X} (r : res X) : rr r r.
   Proof. destruct r; cbn; auto. Qed.
@@ -52,18 +61,22 @@ Section Restrict.
     destruct opn; [|reflexivity]. unfold eval_op_atom. rewrite Hq, Hgc. reflexivity.
   Qed.
 
+  Section Agree.
+  Hypothesis HG : guards_agree.
   Lemma parse_rel ol : rr (parse_softfork_arguments d1 ol) (parse_softfork_arguments d2 ol).
   Proof.
+    destruct HG as (Hs & Hext & Hncm & Huint & Hcanon & Hallow & Hlsf).
     unfold parse_softfork_arguments. apply rr_bind; [apply rr_refl|]. intros [[[a b] c] e0].
     apply rr_bind; [apply Huint|]. intros x. rewrite Hext. apply rr_refl.
   Qed.
 
   Lemma enter_guard_rel s ol cost m : rr (enter_guard d1 s ol cost m) (enter_guard d2 s ol cost m).
   Proof.
+    pose proof (parse_rel ol) as Hp.
+    destruct HG as (Hs & Hext & Hncm & Huint & Hcanon & Hallow & Hlsf).
     unfold enter_guard. apply rr_bind; [apply rr_refl|]. intros fa.
     apply rr_bind; [apply Huint|]. intros ec.
     destruct (m <? ec); [apply rr_refl|]. destruct (ec =? 0); [apply rr_refl|].
-    pose proof (parse_rel ol) as Hp.
     destruct (parse_softfork_arguments d1 ol) as [[[ext prg] env]|err1] eqn:P1; cbn in Hp.
     - rewrite Hp.
       destruct Hlsf as [El|[El Ee]].
@@ -87,15 +100,22 @@ Section Restrict.
         destruct Hallow as [Eal|[Eal Eall]]; [rewrite <- Eal; try rewrite A1; right; reflexivity|left; apply Eall].
   Qed.
 
+  End Agree.
+
   Lemma apply_op_rel s cost m : rr (apply_op d1 s cost m) (apply_op d2 s cost m).
   Proof.
     unfold apply_op. apply rr_bind; [apply rr_refl|]. intros [ol sa].
     apply rr_bind; [apply rr_refl|]. intros [opr sb].
     destruct (envs sb); [apply rr_refl|].
-    rewrite Ha, Hs. destruct (is_kw opr (d_apply d2)).
+    rewrite Ha. destruct (is_kw opr (d_apply d2)).
     - apply rr_bind; [apply rr_refl|]. intros [no env]. rewrite eval_pair_eq. apply rr_refl.
-    - destruct (is_kw opr (d_softfork d2)); [apply enter_guard_rel|].
-      apply rr_bind; [apply Hop|]. intros [c v]. apply rr_refl.
+    - destruct Hguards as [[Hb1 Hb2]|HG].
+      + rewrite Hb1. destruct (is_kw opr (d_softfork d2)) eqn:K2.
+        * destruct (Hb2 opr ol m (current_extensions {| vals := vals sb; envs := l; ops := ops sb; guards := guards sb |}) K2) as (e & -> & He).
+          cbn. left; exact He.
+        * apply rr_bind; [apply Hop|]. intros [c v]. apply rr_refl.
+      + rewrite (proj1 HG). destruct (is_kw opr (d_softfork d2)); [apply enter_guard_rel; exact HG|].
+        apply rr_bind; [apply Hop|]. intros [c v]. apply rr_refl.
   Qed.
 
   Lemma step_rel M cost s : rr (step d1 M cost s) (step d2 M cost s).
